@@ -51,6 +51,11 @@ for row in itertools.product(VALS, repeat=3):
         sig = pd.DataFrame([[True, False, True]], index=[now], columns=names)
         t = T(data, now, extra={"sig": sig}); A.SelectWhere("sig", nd, neg)(t)
         check("SelectWhere", t.temp["selected"], [n for n in names if bool(sig.loc[now, n]) and ok_price(r[n], nd, neg)], info)
+        # a signal that is undefined (NaN) for a ticker - an indicator still warming up - selects nothing for it
+        for srow in ([True, np.nan, False], [1.0, np.nan, 0.0], [np.nan, np.nan, True]):
+            sig2 = pd.DataFrame([srow], index=[now], columns=names)
+            t = T(data, now, extra={"sig": sig2}); A.SelectWhere("sig", nd, neg)(t)
+            check("SelectWhere", t.temp["selected"], [n for n, v in zip(names, srow) if (v == True) and ok_price(r[n], nd, neg)], dict(info, signal=repr(srow)))   # noqa: E712
         random.seed(7)
         t = T(data, now, temp={"selected": ["a", "b", "c"]}); A.SelectRandomly(2, nd, neg)(t)
         pool = [n for n in ["a", "b", "c"] if ok_price(r[n], nd, neg)]
